@@ -63,6 +63,7 @@ def nested_reference_cases(rng, n):
 
 def run(chk, build, replay=None):
     common.standard_proof_part(chk, build, VFILES)
+    propkit.replay_known(chk, "C13")      # listed design-level deviations of this property: re-confirmed on the real code
     chk.trusted += [
         "C13: Unpack.v's py_index/py_slice/unpack are reference semantics written from the language reference; they are "
         "validated by executing every generated program under CPython (direct oracle), not verified",
